@@ -10,15 +10,29 @@
    Pack with the format characters of the code.  The encoders below are written from the code;
    CommandsProps.Layout is written from the firmware side.  TLC checks the one against the other.
 
+   Environment: the link the packet objects are handed to.  "now" = a link that serialises inside
+   its send_packet (UsbDriver, the CPX/TCP/serial, UDP and PRRT drivers); "later" = a link that keeps
+   the CRTPPacket OBJECT and serialises it afterwards on its own thread (RadioDriver: out_queue of
+   Cap = 1 objects, the radio thread reads pk.header / pk.data when it gets to it).  With such a link
+   a call is two steps of the caller -- Build (the packet object is created and written) and Hand
+   (link.send_packet: blocks while the queue is full) -- and Ser is the link thread's step; what the
+   command emitted is what Ser reads from the object.  Packet objects have identity (heap).
+
    Bug selects named defects (vacuity guards / regressions):
      "none" | "pitch_sign" | "legacy_threshold" | "thrust_clip" | "goto_order" | "mask_add"
-   "mask_add" is the behaviour of the code as found (mask += 1 << bs, wrong for duplicates). *)
+     | "hl_shared_packet" | "quat_unit_shortcut"
+   "mask_add" is the behaviour of the code as found (mask += 1 << bs, wrong for duplicates).
+   "hl_shared_packet": HighLevelCommander keeps one CRTPPacket and only replaces its data.
+   "quat_unit_shortcut": compress_quaternion skips the normalisation when the argument's length is
+   within 1 % of 1 (the argument records carry u = floor(4096 * length) for this). *)
 EXTENDS Integers, Sequences, FiniteSets, TLC
 
 CONSTANTS Versions,       \* protocol versions the platform service may report
           Cmds,           \* command names exercised
           ArgSets,        \* [cmd -> set of argument tuples]
           HdrPorts, HdrChans,
+          Links,          \* kinds of link the environment may attach: subset of {"now", "later"}
+          Cap,            \* capacity of the "later" link's queue of packet objects (RadioDriver: 1)
           Chained,        \* FALSE: a call starts from the idle state only (model checking: calls do not
                           \* influence each other); TRUE: calls may follow each other directly (traces)
           Bug
@@ -27,11 +41,19 @@ P == INSTANCE CommandsProps
 
 VARIABLES ver,            \* PlatformService._protocolVersion
           xmode,          \* Commander._x_mode
+          link,           \* environment: kind of link attached to the Crazyflie
+          building,       \* "later" link: the call that has written its packet object and not yet handed it over
+          pend,           \* "later" link: queue of [call, obj] -- packet objects kept by the link
+          heap,           \* packet objects: heap[o + 1] = what object o holds now ([h, data])
           last            \* history: the last emission (record of CommandsProps) or header event
 
-vars == <<ver, xmode, last>>
+vars == <<ver, xmode, link, building, pend, heap, last>>
+envvars == <<link, building, pend, heap>>
 
 None == [kind |-> "none"]
+NoPk == [h |-> -1, data |-> <<>>]
+NoCall == [call |-> None, obj |-> -1]
+Idle == building.obj = -1
 
 \* ------------------------------------------------------------------ values handed to struct.pack
 NatBytes(n) == IF n < 256 THEN <<n>>
@@ -106,13 +128,19 @@ FloatOfBytes(b, neg) == [k |-> "f", b |-> b, neg |-> neg, hasg |-> FALSE, g |-> 
 QMag(k, n) == CHOOSE m \in 0..512 :
                  /\ (m = 0 \/ (2 * m - 1) * (2 * m - 1) * n <= 4 * P!C2 * k * k)
                  /\ (2 * m + 1) * (2 * m + 1) * n > 4 * P!C2 * k * k
-Compress(k) ==
+\* u = floor(4096 * |quat|).  "quat_unit_shortcut": a nearly-unit argument is used as it is, the magnitude is
+\* 511*sqrt(2)*|q_i| of the unnormalised component (here: the normalised magnitude scaled by u/4096, +-1) and
+\* is OR-ed into the 10-bit group: 512 and more lands in the sign bit
+Compress(k, u) ==
     LET n == k[1] * k[1] + k[2] * k[2] + k[3] * k[3] + k[4] * k[4]
         big(i) == \A j \in 1..4 : (P!Abs(k[j]) < P!Abs(k[i])) \/ (P!Abs(k[j]) = P!Abs(k[i]) /\ j >= i)
         l == CHOOSE i \in 1..4 : big(i)                    \* first index with the largest magnitude
         negate == k[l] < 0
         others == SelectSeq(<<1, 2, 3, 4>>, LAMBDA i : i # l)
-        grp(i) == (IF (k[i] < 0) # negate THEN 512 ELSE 0) + QMag(P!Abs(k[i]), n)
+        shortcut == Bug = "quat_unit_shortcut" /\ u >= 4056 /\ u <= 4136
+        mag(i) == IF shortcut THEN (2 * QMag(P!Abs(k[i]), n) * u + 4096) \div 8192 ELSE QMag(P!Abs(k[i]), n)
+        grp(i) == IF mag(i) >= 512 THEN mag(i)             \* (negbit << 9) | mag
+                  ELSE (IF (k[i] < 0) # negate THEN 512 ELSE 0) + mag(i)
         f1 == grp(others[1])  f2 == grp(others[2])  f3 == grp(others[3])
         lo == (f2 % 64) * 1024 + f3
         hi == (l - 1) * 16384 + f1 * 16 + f2 \div 64
@@ -157,7 +185,7 @@ Encode(cmd, v, x, a) ==
             ELSE Send(7, 0, Pack(<<"B", "h", "h", "h", "h", "h", "h", "h", "h", "h", "I", "h", "h", "h">>,
                      <<I(6), Z(Milli(a[1])), Z(Milli(a[2])), Z(Milli(a[3])), Z(Milli(a[4])),
                        Z(Milli(a[5])), Z(Milli(a[6])), Z(Milli(a[7])), Z(Milli(a[8])), Z(Milli(a[9])),
-                       Raw(Compress(k)), Z(Milli(a[14])), Z(Milli(a[15])), Z(Milli(a[16]))>>))
+                       Raw(Compress(k, a[10].u)), Z(Milli(a[14])), Z(Milli(a[15])), Z(Milli(a[16]))>>))
     [] cmd = "position" -> Send(7, 0, Pack(F4, <<I(7), a[1], a[2], a[3], a[4]>>))
     [] cmd \in {"hl_takeoff", "hl_land"} ->
          \* args: height, duration, group_mask, yaw ; yaw None -> target_yaw 0.0, useCurrentYaw True
@@ -227,45 +255,107 @@ Modelled(cmd, x, a) == /\ (cmd = "setpoint" /\ x) => (a[1].hasg /\ a[2].hasg)
                        /\ cmd = "full_state" => \A i \in {1, 2, 3, 4, 5, 6, 7, 8, 9, 14, 15, 16} : MilliSane(a[i])
 
 \* ------------------------------------------------------------------ actions
-Init == ver = -1 /\ xmode = FALSE /\ last = None
+Init == /\ ver = -1 /\ xmode = FALSE /\ last = None
+        /\ link = "now" /\ building = NoCall /\ pend = <<>> /\ heap = [i \in 1..(Cap + 2) |-> NoPk]
 
 \* PlatformService._platform_callback stores the version byte reported by the firmware
-SetVersion(v) == ver' = v /\ UNCHANGED xmode /\ last' = None
+SetVersion(v) == Idle /\ ver' = v /\ UNCHANGED xmode /\ last' = None /\ UNCHANGED envvars
 \* Commander.set_client_xmode
-SetXMode(b) == xmode' = b /\ UNCHANGED ver /\ last' = None
+SetXMode(b) == Idle /\ xmode' = b /\ UNCHANGED ver /\ last' = None /\ UNCHANGED envvars
+\* environment: another kind of link is attached (between connections: nothing is queued)
+SetLink(m) == /\ Idle /\ pend = <<>> /\ m # link
+              /\ link' = m /\ last' = None /\ UNCHANGED <<ver, xmode, building, pend, heap>>
 
+EmRec(kind, cmd, a, out, pks) == [kind |-> kind, cmd |-> cmd, ver |-> ver, xmode |-> xmode, args |-> a,
+                                  out |-> out, pks |-> pks]
+
+\* a call on a link that serialises inside send_packet
 Call(cmd, a) ==
+    /\ link = "now" /\ Idle
+    /\ Chained \/ last = None
+    /\ Modelled(cmd, xmode, a)
+    /\ LET r == Encode(cmd, ver, xmode, a) IN last' = EmRec("cmd", cmd, a, r.out, r.pks)
+    /\ UNCHANGED <<ver, xmode>> /\ UNCHANGED envvars
+
+\* ---- a link that keeps the packet object ("later")
+HLCmds == {"hl_takeoff", "hl_land", "hl_stop", "hl_group_mask", "hl_goto", "hl_spiral", "hl_start_traj",
+           "hl_define_traj"}
+\* every encoder does pk = CRTPPacket(): an object nobody else refers to
+ObjFor(cmd) == IF Bug = "hl_shared_packet" /\ cmd \in HLCmds THEN 0
+               ELSE CHOOSE o \in 1..(Cap + 1) : \A i \in DOMAIN pend : pend[i].obj # o
+\* caller, step 1: arguments checked, packet object created and written (pk.port/channel/data = ...)
+Build(cmd, a) ==
+    /\ link = "later" /\ Idle
     /\ Chained \/ last = None
     /\ Modelled(cmd, xmode, a)
     /\ LET r == Encode(cmd, ver, xmode, a) IN
-       last' = [kind |-> "cmd", cmd |-> cmd, ver |-> ver, xmode |-> xmode, args |-> a,
-                out |-> r.out, pks |-> r.pks]
-    /\ UNCHANGED <<ver, xmode>>
+       IF r.pks = <<>>                                   \* raised, or nothing to send: the call is over
+       THEN last' = EmRec("cmd", cmd, a, r.out, <<>>) /\ UNCHANGED <<building, heap>>
+       ELSE LET o == ObjFor(cmd) IN
+            /\ heap' = [heap EXCEPT ![o + 1] = r.pks[1]]
+            /\ building' = [call |-> EmRec("cmd", cmd, a, r.out, <<>>), obj |-> o]
+            /\ last' = None
+    /\ UNCHANGED <<ver, xmode, link, pend>>
+\* caller, step 2: link.send_packet(pk) = out_queue.put(pk): waits while the queue is full
+Hand == /\ ~Idle /\ Len(pend) < Cap
+        /\ pend' = Append(pend, building) /\ building' = NoCall
+        /\ last' = [building.call EXCEPT !.kind = "queued"]
+        /\ UNCHANGED <<ver, xmode, link, heap>>
+\* link thread: takes the oldest object and serialises what it holds NOW: this is the emission of that call
+Ser == /\ pend # <<>>
+       /\ Chained \/ last = None
+       /\ last' = [pend[1].call EXCEPT !.pks = <<heap[pend[1].obj + 1]>>]
+       /\ pend' = Tail(pend)
+       \* the link drops its reference; an object nobody refers to any more is garbage
+       /\ LET o == pend[1].obj IN
+          heap' = IF building.obj = o \/ (\E i \in 2..Len(pend) : pend[i].obj = o) \/ o = 0 THEN heap
+                  ELSE [heap EXCEPT ![o + 1] = NoPk]
+       /\ UNCHANGED <<ver, xmode, link, building>>
+\* Build and Hand in one step (the trace events have this grain; not part of Next)
+CallLater(cmd, a) ==
+    /\ link = "later" /\ Idle
+    /\ Modelled(cmd, xmode, a)
+    /\ LET r == Encode(cmd, ver, xmode, a) IN
+       IF r.pks = <<>>
+       THEN last' = EmRec("cmd", cmd, a, r.out, <<>>) /\ UNCHANGED <<pend, heap>>
+       ELSE LET o == ObjFor(cmd) IN
+            /\ Len(pend) < Cap
+            /\ heap' = [heap EXCEPT ![o + 1] = r.pks[1]]
+            /\ pend' = Append(pend, [call |-> EmRec("cmd", cmd, a, r.out, <<>>), obj |-> o])
+            /\ last' = EmRec("queued", cmd, a, r.out, <<>>)
+    /\ UNCHANGED <<ver, xmode, link, building>>
 
 \* CRTPPacket: port/channel setters -> header byte
-MakeHeader(p, c) == /\ Chained \/ last = None
+MakeHeader(p, c) == /\ Idle
+                    /\ Chained \/ last = None
                     /\ last' = [kind |-> "hdr", port |-> p, chan |-> c, h |-> Header(p, c)]
-                    /\ UNCHANGED <<ver, xmode>>
+                    /\ UNCHANGED <<ver, xmode>> /\ UNCHANGED envvars
 
-Return == last # None /\ last' = None /\ UNCHANGED <<ver, xmode>>
+Return == last # None /\ last' = None /\ UNCHANGED <<ver, xmode>> /\ UNCHANGED envvars
 
 Next == \/ Return
         \/ \E v \in Versions : SetVersion(v)
         \/ \E b \in BOOLEAN : SetXMode(b)
-        \/ \E c \in Cmds : \E a \in ArgSets[c] : Call(c, a)
+        \/ \E m \in Links : SetLink(m)
+        \/ \E c \in Cmds : \E a \in ArgSets[c] : Call(c, a) \/ Build(c, a)
+        \/ Hand
+        \/ Ser
         \/ \E p \in HdrPorts, c \in HdrChans : MakeHeader(p, c)
 
 Spec == Init /\ [][Next]_vars
 
 \* ------------------------------------------------------------------ properties (C08)
+\* kind "cmd" = a finished emission: the call is over and everything it handed to the link is serialised
 EmissionsOK == last.kind = "cmd" => P!EmissionOK([cmd |-> last.cmd, ver |-> last.ver, xmode |-> last.xmode,
                                                   args |-> last.args, out |-> last.out, pks |-> last.pks])
 HeadersOK == last.kind = "hdr" => P!HeaderClause(last.port, last.chan, last.h) = "ok"
 \* design-level fact beyond the property (never the verdict on the code): a call whose arguments
 \* all have a wire value is sent
-RepresentableIsSent == last.kind = "cmd" =>
+RepresentableIsSent == last.kind \in {"cmd", "queued"} =>
     LET lay == P!Layout(last.cmd, last.ver, last.xmode) IN
     (lay.ok /\ (\A i \in DOMAIN lay.f : P!CanEncode(lay.f[i], last.args))
             /\ P!TotalWidth(lay.f, last.args) <= 30) => last.out = "sent"
-TypeOK == ver \in Versions \cup {-1} /\ xmode \in BOOLEAN /\ last.kind \in {"none", "cmd", "hdr"}
+TypeOK == /\ ver \in Versions \cup {-1} /\ xmode \in BOOLEAN /\ last.kind \in {"none", "cmd", "queued", "hdr"}
+          /\ link \in Links \cup {"now"} /\ Len(pend) <= Cap /\ building.obj \in -1..(Cap + 1)
+          /\ (link = "now" => pend = <<>> /\ Idle)
 =============================================================================
